@@ -1,6 +1,6 @@
 //! Glue between libFuzzer targets and the property oracles.
 
-use crate::engine::{load_findings, Call, Case, Outcome, Verdict, VERIF_DIR};
+use crate::engine::{load_findings, Call, Case, Outcome, Verdict};
 use crate::props;
 use std::collections::{BTreeMap, BTreeSet};
 use std::sync::OnceLock;
@@ -73,7 +73,7 @@ fn open_sigs() -> &'static BTreeMap<String, BTreeSet<String>> {
 }
 
 fn report(id: &str, msg: &str, case: &Case) -> ! {
-    let dir = format!("{}/replays", VERIF_DIR);
+    let dir = crate::engine::out_dir("replays");
     let _ = std::fs::create_dir_all(&dir);
     let path = format!("{}/{}-fuzz-{:016x}.json", dir, id, case.digest());
     let mut j = case.to_json(usize::MAX);
